@@ -8,7 +8,7 @@ import sys
 import time
 import traceback
 
-from .core import Abort, Ctx, HarnessError, h64, jdump
+from .core import Abort, Ctx, HarnessError, execute_guarded, h64, jdump
 from .rng import Rng, run_seed
 
 CHUNK_TIMEOUT = 300
@@ -29,10 +29,7 @@ def one_run(world, verif_seed, tier, index, keep_log=False, props=None, config=N
     plan["run_seed"] = "%064x" % seed
     plan["index"] = index
     ctx = Ctx(keep_log=keep_log, props=props)
-    try:
-        world.execute(plan, ctx)
-    except Abort:
-        pass
+    execute_guarded(world, plan, ctx)
     return plan, ctx
 
 
@@ -107,6 +104,8 @@ def _chunk_body(args):
             "harness": None, "viol_counts": {}, "configs": {},
         }
         for index in range(start, start + count):
+            if out.get("hung", 0) >= 2:
+                break   # (two runs of this chunk never returned: report what there is before the chunk watchdog fires)
             try:
                 plan, ctx = one_run(world, verif_seed, tier, index, props=props)
             except HarnessError as e:
@@ -121,6 +120,8 @@ def _chunk_body(args):
                 if out["harness_count"] > 20:
                     break
                 continue
+            if any(v["class"] == "did-not-return" for v in ctx.violations):
+                out["hung"] = out.get("hung", 0) + 1
             out["runs"] += 1
             out["steps"] += ctx.steps_run
             out["obs"] += ctx.nobs
